@@ -11,7 +11,12 @@ import (
 	"flag"
 	"fmt"
 	"os"
+	"os/exec"
+	"path/filepath"
+	"sort"
+	"strings"
 	"sync/atomic"
+	"syscall"
 	"time"
 
 	"ariga.io/atlas/sql/migrate"
@@ -27,7 +32,46 @@ import (
 var (
 	curCase atomic.Value // string: the case being run (for the watchdog)
 	beat    atomic.Int64
+	curLine atomic.Value // string: its case line
+	curFile *os.File // the case being run, for the supervising parent (a Go stack overflow cannot be recovered)
+	rawMode bool     // stage "raw": sqlx.SortChanges alone, on the unsorted change list
 )
+
+// supervise runs the generator in a child process. Unbounded recursion in the planner
+// (= the loop the property excludes) kills a Go process with a fatal error that no
+// recover() sees; the parent then reports the case the child was running as the failing input.
+func userCPU() time.Duration {
+	var ru syscall.Rusage
+	if err := syscall.Getrusage(syscall.RUSAGE_SELF, &ru); err != nil {
+		return 0
+	}
+	return time.Duration(ru.Utime.Sec)*time.Second + time.Duration(ru.Utime.Usec)*time.Microsecond
+}
+
+func supervise(outDir string) {
+	cur := filepath.Join(outDir, "current.txt")
+	os.MkdirAll(outDir, 0o755)
+	os.Remove(cur)
+	cmd := exec.Command(os.Args[0], os.Args[1:]...)
+	cmd.Env = append(os.Environ(), "VERIF_SORT_CHILD=1")
+	cmd.Stdout = os.Stdout
+	err := cmd.Run() // stderr (a stack dump of ~1e5 frames) is dropped
+	if err == nil {
+		os.Remove(cur)
+		return
+	}
+	b, _ := os.ReadFile(cur)
+	id, line, _ := strings.Cut(strings.TrimSpace(string(b)), " ")
+	if id == "" {
+		fmt.Fprintln(os.Stderr, "sort harness: child failed before the first case:", err)
+		os.Exit(2)
+	}
+	w := out.New(outDir)
+	w.Rule = "the planner process died (fatal error: unbounded recursion) on the recorded case; the other cases of this stage were discarded"
+	w.Case(id, line, []string{"sort out=crash", "mysql out=crash", "pg out=crash"})
+	w.Violation(id, "planner-crash", "fatal error in the planner (stack overflow = it loops) ("+err.Error()+"); case: "+line)
+	w.Close()
+}
 
 func main() {
 	mode := flag.String("mode", "exh", "exh|rnd")
@@ -38,17 +82,27 @@ func main() {
 		fmt.Fprintln(os.Stderr, "missing -out")
 		os.Exit(2)
 	}
+	if os.Getenv("VERIF_SORT_CHILD") == "" {
+		supervise(*outDir)
+		return
+	}
 	w := out.New(*outDir)
+	if f, err := os.Create(filepath.Join(*outDir, "current.txt")); err == nil {
+		curFile = f
+	}
 	curCase.Store("")
-	// Watchdog: a single planner call that does not return within 20 s is a loop.
+	// Watchdog: a single planner call that burns 20 s of user CPU without returning is a loop.
+	// (CPU time, not wall time: on a loaded machine the process can be descheduled for long.)
 	go func() {
-		last, since := int64(-1), time.Now()
+		last, cpu0 := int64(-1), userCPU()
 		for {
 			time.Sleep(500 * time.Millisecond)
 			if b := beat.Load(); b != last {
-				last, since = b, time.Now()
-			} else if id := curCase.Load().(string); id != "" && time.Since(since) > 20*time.Second {
-				w.Violation(id, "loop", "planner call did not return within 20s")
+				last, cpu0 = b, userCPU()
+			} else if id := curCase.Load().(string); id != "" && userCPU()-cpu0 > 20*time.Second {
+				line, _ := curLine.Load().(string)
+				w.Case(id, line, []string{"sort out=loop", "mysql out=loop", "pg out=loop"})
+				w.Violation(id, "loop", "planner call did not return within 20s of CPU time; case: "+line)
 				w.Close()
 				os.Exit(0)
 			}
@@ -59,6 +113,9 @@ func main() {
 		genExhaustive(w, *tier)
 	case "rnd":
 		genRandom(w, *tier)
+	case "raw":
+		rawMode = true
+		genRaw(w, *tier)
 	default:
 		fmt.Fprintln(os.Stderr, "unknown mode")
 		os.Exit(2)
@@ -111,6 +168,64 @@ func runSort(sc *scenario) runRes {
 		}
 		return verifx.SortChanges(d, nil), nil
 	})
+}
+
+// runRaw: SortChanges alone on the change list as given (no DetachCycles first), so that its
+// depth-first search has real work to do: forward edges, 2-cycles of dependsOn, chains.
+func runRaw(sc *scenario) runRes {
+	return guard(func() ([]schema.Change, error) {
+		return verifx.SortChanges(sc.build("int"), nil), nil
+	})
+}
+
+func multiset(os []ochg) string {
+	ss := make([]string, len(os))
+	for i, o := range os {
+		ss[i] = o.String()
+	}
+	sort.Strings(ss)
+	return strings.Join(ss, " ")
+}
+
+// runRawCase: tie on the exact order; oracle = the parts of C04 that hold for every input
+// (terminates without panic, output is a permutation of the input).
+func runRawCase(w *out.W, id string, sc *scenario, tags ...string) {
+	line := sc.caseLine()
+	if seen[line] {
+		w.Count("duplicate-skipped")
+		return
+	}
+	seen[line] = true
+	curCase.Store(id)
+	curLine.Store(line)
+	beat.Add(1)
+	if curFile != nil {
+		curFile.Truncate(0)
+		curFile.WriteAt([]byte(id+" "+line+"\n"), 0)
+	}
+	in, _ := decode(sc.build("int"))
+	r := runRaw(sc)
+	beat.Add(1)
+	curCase.Store("")
+	if r.err != "" {
+		w.Violation(id, "planner-"+r.err, fmt.Sprintf("raw: %s; case: %s", r.msg, line))
+		w.Case(id, line, []string{"raw out=" + r.err})
+		return
+	}
+	if multiset(in) != multiset(r.outp) {
+		w.Violation(id, "not-once", fmt.Sprintf("raw: SortChanges output %s is not a permutation of its input %s", showOut(r.outp), showOut(in)))
+	}
+	w.Case(id, line, []string{"raw out=" + showOut(r.outp)})
+	for _, t := range tags {
+		w.Count(t)
+	}
+	w.Count(fmt.Sprintf("changes:%d", len(sc.cs)))
+	if showOut(r.outp) != showOut(in) {
+		w.Count("raw:reordered")
+		w.NonTrivial(line)
+	} else {
+		w.Count("raw:unchanged")
+	}
 }
 
 func runPlanner(sc *scenario, p migrate.PlanApplier, intT string) runRes {
@@ -206,6 +321,9 @@ var seen = map[string]bool{}
 // runCase runs one scenario on the three entry points, records case + observations,
 // and evaluates the oracle on the Go observations.
 func runCase(w *out.W, id string, sc *scenario, tags ...string) {
+	if only := os.Getenv("VERIF_SORT_ONLY"); only != "" && only != id {
+		return // debugging aid: run a single case of the (deterministic) generator
+	}
 	line := sc.caseLine()
 	if seen[line] {
 		w.Count("duplicate-skipped")
@@ -213,9 +331,15 @@ func runCase(w *out.W, id string, sc *scenario, tags ...string) {
 	}
 	seen[line] = true
 	curCase.Store(id)
+	curLine.Store(line)
 	beat.Add(1)
+	if curFile != nil {
+		curFile.Truncate(0)
+		curFile.WriteAt([]byte(id+" "+line+"\n"), 0)
+	}
 	in, _ := decode(sc.build("int"))
 	cyc := scenarioCyclic(sc)
+	hyp := scenarioWF(sc) && scenarioConsistent(sc)
 	var obs []string
 	nontrivial := false
 	for _, ep := range []struct {
@@ -235,6 +359,9 @@ func runCase(w *out.W, id string, sc *scenario, tags ...string) {
 		}
 		verdict, viol := judge(sc, in, r.outp)
 		obs = append(obs, fmt.Sprintf("%s out=%s replay=%s", ep.name, showOut(r.outp), verdict))
+		if !hyp {
+			viol = nil // outside WF / consistent the property says nothing; the case is compared only
+		}
 		for _, v := range viol {
 			class := v.class
 			if class == "fk-before-table" && cyc && isRepoint(sc, v) {
@@ -244,6 +371,21 @@ func runCase(w *out.W, id string, sc *scenario, tags ...string) {
 			w.Violation(id, class, fmt.Sprintf("%s: %s; plan %s; case: %s", ep.name, v.msg, showOut(r.outp), line))
 		}
 		if ep.name == "sort" {
+			// the hypotheses of the theorems on this case, and C04_safe_exact's prediction
+			if hyp {
+				w.Count("hyp:WF+consistent")
+				predicted := "ok"
+				if cyc && !scenarioOrdered(sc) {
+					predicted = "fail"
+				}
+				if predicted == verdict {
+					w.Count("exact:predicted-" + verdict)
+				} else {
+					w.Count("exact:MISPREDICTED-" + verdict)
+				}
+			} else {
+				w.Count("hyp:not-WF-or-inconsistent")
+			}
 			if showOut(r.outp) != showOut(in) {
 				nontrivial = true
 			}
@@ -427,7 +569,7 @@ func pow(b, e int) int {
 
 func genExhaustive(w *out.W, tier string) {
 	w.Exhaust = true
-	w.Rule = "exhaustive: every directed FK graph with self loops over n<=3 tables (2^(n*n)) x every split of the tables into created/dropped/kept-and-modified (3^n) x 4 readings of a modified table's edges (added / dropped / re-pointed by ModifyForeignKey, with or without another column change) x every input order of the change list (n!); identical change sets are run once. thorough adds every graph over 4 tables x 8 seeded (split, reading, order) choices. Each case runs sqlx.DetachCycles+SortChanges, mysql.DefaultPlan and postgres.DefaultPlan. Non-trivial = the planned order differs from the input order (something was moved or detached); distinct by case line"
+	w.Rule = "exhaustive: every directed FK graph with self loops over n<=3 tables (2^(n*n)) x every split of the tables into created/dropped/kept-and-modified (3^n) x 4 readings of a modified table's edges (added / dropped / re-pointed by ModifyForeignKey, with or without another column change) x every input order of the change list (n!); identical change sets are run once; hyp:/exact: counters = on how many cases the hypotheses WF+consistent of the theorems hold and C04_safe_exact predicts the oracle's verdict. thorough adds every graph over 4 tables x 8 seeded (split, reading, order) choices. Each case runs sqlx.DetachCycles+SortChanges, mysql.DefaultPlan and postgres.DefaultPlan. Non-trivial = the planned order differs from the input order (something was moved or detached); distinct by case line"
 	id := 0
 	for n := 1; n <= 3; n++ {
 		ps := perms(n)
@@ -458,8 +600,51 @@ func genExhaustive(w *out.W, tier string) {
 	}
 }
 
+// genRaw: the same enumeration as the exhaustive stage (n <= 3) and a seeded random part, but the
+// change list goes to sqlx.SortChanges directly.
+func genRaw(w *out.W, tier string) {
+	w.Exhaust = true
+	w.Rule = "raw SortChanges (no DetachCycles before it): every FK graph with self loops over n<=3 tables x every split created/dropped/modified x 4 readings x every input order, then seeded random change sets of 2..8 tables (quick 4000, thorough 60000). Compared: exact output order. Oracle: no panic/loop, output is a permutation of the input. Non-trivial = SortChanges moved something"
+	id := 0
+	for n := 1; n <= 3; n++ {
+		ps := perms(n)
+		for bits := uint64(0); bits < 1<<uint(n*n); bits++ {
+			adj := adjOf(n, bits)
+			for split := 0; split < pow(3, n); split++ {
+				roles := rolesOf(n, split)
+				for variant := 0; variant < 4; variant++ {
+					for _, p := range ps {
+						id++
+						runRawCase(w, fmt.Sprintf("w%d-%d", n, id), mkScenario(n, roles, adj, variant, p), fmt.Sprintf("n:%d", n))
+					}
+				}
+			}
+		}
+	}
+	r := rng.FromEnv(0xC04A)
+	count := 4000
+	if tier == "thorough" {
+		count = 60000
+	}
+	for k := 0; k < count; k++ {
+		n := 2 + r.Intn(7)
+		roles := make([]int, n)
+		for i := range roles {
+			roles[i] = r.Intn(3)
+		}
+		adj := make([][]bool, n)
+		for i := range adj {
+			adj[i] = make([]bool, n)
+			for j := range adj[i] {
+				adj[i][j] = r.Chance(10+r.Intn(40), 100)
+			}
+		}
+		runRawCase(w, fmt.Sprintf("wr%d", k), mkScenario(n, roles, adj, r.Intn(4), randPerm(r, n)), fmt.Sprintf("n:%d", n))
+	}
+}
+
 func genRandom(w *out.W, tier string) {
-	w.Rule = "seeded random: 2..12 tables with roles created/dropped/modified/untouched, edge density 5..60%, a random reading per modified table, random input order and FK order, sometimes a second FK to the same parent and sometimes a reference through the other object of the same table (pointer differs, name equal). Non-trivial = the planned order differs from the input order; distinct by case line"
+	w.Rule = "seeded random: 2..12 tables with roles created/dropped/modified/untouched, edge density 5..60%, a random reading per modified table, random input order and FK order, sometimes a second FK to the same parent and sometimes a reference through the other object of the same table (pointer differs, name equal); 1 case in 10 leaves the theorems' hypotheses (table recreation, wrong ForeignKey.Table of a dropped table, key to a dropped table) and is compared with the model only, the oracle is consulted on the cases that satisfy WF+consistent. Non-trivial = the planned order differs from the input order; distinct by case line"
 	r := rng.FromEnv(0xC04)
 	count := 12000
 	if tier == "thorough" {
@@ -525,7 +710,50 @@ func genRandom(w *out.W, tier string) {
 				}
 			}
 		}
-		runCase(w, fmt.Sprintf("r%d", k), sc, fmt.Sprintf("n:%d", n), fmt.Sprintf("bias:%d", bias))
+		tags := []string{fmt.Sprintf("n:%d", n), fmt.Sprintf("bias:%d", bias)}
+		// Outside the theorems' hypotheses (correspondence only, the oracle is not consulted): the
+		// shapes sqlx.Diff never emits but the code has arms for. 1 case in 10.
+		if r.Chance(1, 10) {
+			switch r.Intn(3) {
+			case 0: // table recreation: DROP + CREATE of the same name (dependsOn's "Table recreation" arm)
+				for _, c := range sc.cs {
+					// at most 12 changes: beyond that Go's sort.Slice is no longer the stable insertion sort the
+					// executable model uses (the theorems cover every tie-break, the comparison cannot)
+					if c.kind == 'A' && len(sc.cs) < 12 {
+						i := c.t.name
+						sc.cat.tabs = append(sc.cat.tabs, i)
+						pos := r.Intn(len(sc.cs) + 1)
+						d := chg{kind: 'D', t: cur(i)}
+						sc.cs = append(sc.cs[:pos:pos], append([]chg{d}, sc.cs[pos:]...)...)
+						tags = append(tags, "nonwf:recreate")
+						break
+					}
+				}
+			case 1: // a dropped table's key whose Table field names another table
+				for ci := range sc.cs {
+					if c := &sc.cs[ci]; c.kind == 'D' && len(c.fks) > 0 {
+						c.fks[0].tab = cur((c.t.name + 1) % n)
+						tags = append(tags, "nonwf:child-field")
+						break
+					}
+				}
+			case 2: // a created table declaring a key to a dropped table
+				var a, d = -1, -1
+				for ci, c := range sc.cs {
+					if c.kind == 'A' && a < 0 {
+						a = ci
+					}
+					if c.kind == 'D' && d < 0 {
+						d = ci
+					}
+				}
+				if a >= 0 && d >= 0 {
+					sc.cs[a].fks = append(sc.cs[a].fks, fkey{60, sc.cs[a].t, sc.cs[d].t})
+					tags = append(tags, "nonwf:key-to-dropped")
+				}
+			}
+		}
+		runCase(w, fmt.Sprintf("r%d", k), sc, tags...)
 	}
 }
 
